@@ -164,10 +164,18 @@ def render_free(prog, ch, opts=None):
     dss = [d for s, d in zip(prog, ds) if s.kind != "program_anon"]
     i = 0
     n = len(stmts)
+    only = opts.get("only")
+    base_opts = opts
     while i < n:
         s = stmts[i]
         toks = apply_case(stmt_toks(s), case_mode)
         ind = " " * (base_indent + 2 * dss[i])
+        # deviations may be confined to some statements ('only'): the others
+        # are rendered canonically without meeting any choice point
+        if only is not None and i not in only:
+            opts = {"gaps": False, "trailing": False, "joins": False, "lit_breaks": False, "no_breaks": True}
+        else:
+            opts = base_opts
         # gap before the statement
         if opts.get("gaps", True):
             g = ch.choose(4, "gap")
@@ -193,7 +201,7 @@ def render_free(prog, ch, opts=None):
         for j, t in enumerate(toks):
             if j > 0:
                 # boundary between toks[j-1] and toks[j]
-                if not _breakable(toks, j, is_format):
+                if opts.get("no_breaks") or not _breakable(toks, j, is_format):
                     cur += t.pre + t.text
                     continue
                 b = ch.choose(2 + len(styles), "brk")
@@ -253,7 +261,7 @@ def render_free(prog, ch, opts=None):
                 lay.features.add("trailing")
         # ';' join with the next statement
         join = False
-        if opts.get("joins", True) and i + 1 < n and tc is None and not stmts[i + 1].label:
+        if opts.get("joins", True) and i + 1 < n and tc is None and not stmts[i + 1].label and (only is None or i + 1 in only):
             join = ch.flag("join")
         last_line = len(lay.lines) + 1
         exp_tokens = [(t.kind, t.text) for t in stmt_toks(s) if t.kind not in ("label", "cname")]
@@ -416,3 +424,36 @@ def render_fixed(prog, ch, opts=None):
         if tc:
             lay.comments.append((tc, last_line, len(lay.expect) - 1))
     return lay
+
+
+
+# ------------------------------------------------------------- focus programs
+# Small programs around one feature-rich statement; the layout space of that
+# statement is explored with more simultaneous deviations than is affordable
+# for whole corpus programs.
+
+STYLES_FOCUS = [(0, 0, 1, 0), (2, 1, 1, 0), (1, 1, 0, 2), (1, 0, 1, 1), (0, 2, 2, 3)]
+
+
+def focus_programs():
+    """list of (name, prog, focus statement indices)"""
+    from mc.grammar import S, opener, closer
+
+    def wrap(stmts):
+        return [opener("subroutine s(a, b)", "subroutine")] + stmts + [closer("end subroutine s", "end_subroutine")]
+
+    out = []
+    texts = [
+        ("lit-bang-quote", "s = 'abcd' // 'e!f' // \"g'h\""),
+        ("write-lits", "write(*, '(a, a)') \"it's\", 'x & y'"),
+        ("if-stmt-lit", "if (a > 0) b = 'c;d'"),
+        ("call-lit", "call sub(a, 'p''q', b=1)"),
+        ("expr-mixed", "x = a(i) + 1.0e-3 * f(y, 'q')"),
+        ("decl-init", "character(len=3) :: c = 'a!b'"),
+        ("two-lits", "t = \"a\"\"b\" // 'c''d!'"),
+    ]
+    for name, t in texts:
+        out.append((name, wrap([S(t, "focus")]), {1}))
+    out.append(("label-name-do", wrap([opener("do i = 1, n", "do", label="10", name="nm"), S("a = 'x!'", "assign"), closer("end do nm", "end_do")]), {1, 2}))
+    out.append(("two-stmts", wrap([S("a = 'p!q'", "assign"), S("b = \"r's\" // 't'", "assign")]), {1, 2}))
+    return out
